@@ -42,6 +42,8 @@ type World struct {
 	// HTTPPolicy decides the fate of an outbound http request from a
 	// node. nil = serve.
 	HTTPPolicy func(from, to string, req *http.Request) HTTPAction
+	// WattTime decides how the simulated WattTime service behaves (nil = well).
+	WattTime WattTimePolicy
 	// HTTPObserve sees every outbound request that a peer served.
 	HTTPObserve func(to *ServerNode, req *http.Request, body []byte, status int)
 	// DialPolicy decides the fate of a tcp dial. nil = connect.
@@ -474,6 +476,9 @@ func (fabricTransport) RoundTrip(req *http.Request) (*http.Response, error) {
 		return nil, errors.New("no simulated world")
 	}
 	host := req.URL.Hostname()
+	if host == "api.watttime.org" {
+		return w.wattTimeServe(req)
+	}
 	n := w.byLoc[host]
 	act := HTTPAction{}
 	if w.HTTPPolicy != nil {
